@@ -85,7 +85,7 @@ fn large_text_histories() -> Vec<History> {
     out
 }
 
-fn run_large_texts(prop: &'static str) -> Merged {
+pub fn run_large_texts(prop: &'static str) -> Merged {
     use crate::ir::History;
     let list: Vec<History> = large_text_histories();
     run_parallel(|shard| {
